@@ -374,8 +374,30 @@ class FnSplicer:
             s, k, e = nested[nm]
             FnSplicer(self.src, self.segs, tag + '::' + nm, self.counts).splice(s, k, e, nspec)
 
+        tr_excl = []
+
         def excluded(idx):
             return any(s <= idx <= e for s, e in excl)
+
+        def in_rewritten(idx):
+            return any(s <= idx <= e for s, e in tr_excl)
+
+        # Rule 'tokens-to-helper': an exact token sequence (a std call chain Verus cannot take) is replaced by a call of a
+        # helper function whose body is that very expression behind an assumed contract: [(tokens, replacement)]
+        for n_tr, (pattern, replacement) in enumerate(spec.get('token_rewrites') or []):
+            want = [t.text for t in lex(pattern) if t.kind not in ('comment', 'doc')]
+            hits = []
+            i = body_open + 1
+            while i < body_close - len(want) + 1:
+                if [t.text for t in toks[i:i + len(want)]] == want and not excluded(i):
+                    hits.append(i)
+                i += 1
+            if len(hits) != 1:
+                raise ExtractError('lost anchor: `%s` occurs %d times in %s' % (pattern, len(hits), tag))
+            self.segs.rewrite(toks[hits[0]].start, toks[hits[0] + len(want) - 1].end, replacement, 'tokens-to-helper')
+            tr_excl.append((hits[0], hits[0] + len(want) - 1))   # loops and closures inside the replaced text no longer exist
+            self.counts['tokens-to-helper'] = self.counts.get('tokens-to-helper', 0) + 1
+
 
         # loops
         loops = []
@@ -401,8 +423,9 @@ class FnSplicer:
                         if toks[j].text in ('(', '['):
                             j = match_close(toks, j)
                         j += 1
-                loops.append((i, j))
-            elif t.kind == 'punct' and t.text == '|':
+                if not (in_rewritten(i) and in_rewritten(j)):
+                    loops.append((i, j))
+            elif t.kind == 'punct' and t.text == '|' and not in_rewritten(i):
                 p = toks[i - 1]
                 starts = (p.kind == 'punct' and p.text in ('(', ',', '=', '{', ';', '=>', '[', ':')) or \
                          (p.kind == 'ident' and p.text in ('move', 'return', 'else'))
@@ -466,21 +489,6 @@ class FnSplicer:
                 bclose = match_close(toks, bopen)
                 self.segs.insert(toks[bclose].start, '\n' + lspec['body_end'].rstrip() + '\n', ltag + '/ghost-body-end', order=0)
                 self.counts['ghost-annotation'] = self.counts.get('ghost-annotation', 0) + 1
-
-        # Rule 'tokens-to-helper': an exact token sequence (a std call chain Verus cannot take) is replaced by a call of a
-        # helper function whose body is that very expression behind an assumed contract: [(tokens, replacement)]
-        for n_tr, (pattern, replacement) in enumerate(spec.get('token_rewrites') or []):
-            want = [t.text for t in lex(pattern) if t.kind not in ('comment', 'doc')]
-            hits = []
-            i = body_open + 1
-            while i < body_close - len(want) + 1:
-                if [t.text for t in toks[i:i + len(want)]] == want and not excluded(i):
-                    hits.append(i)
-                i += 1
-            if len(hits) != 1:
-                raise ExtractError('lost anchor: `%s` occurs %d times in %s' % (pattern, len(hits), tag))
-            self.segs.rewrite(toks[hits[0]].start, toks[hits[0] + len(want) - 1].end, replacement, 'tokens-to-helper')
-            self.counts['tokens-to-helper'] = self.counts.get('tokens-to-helper', 0) + 1
 
         # ghost annotations before a statement identified by its leading tokens: [(token texts, ghost code)]
         for n_anchor, (anchor, code) in enumerate(spec.get('ghost_before') or []):
